@@ -7,5 +7,5 @@ MCThreadOf == [a \in {"r1", "r2", "j1", "k1"} |-> IF a = "r2" THEN "T2" ELSE "T1
 MCThreadOfShared == [a \in {"r1", "r2", "j1", "k1"} |-> "T1"]
 \* the design has no lineage actor: `mwhere` (where a message's frame sits) is only read by the lineage guards and
 \* never influences a step here, so it is hidden from the fingerprint
-MCView == <<cnt, msgs, run, sess, job, task, creq, cached, recd, execs, bad, dvars>>
+MCView == <<cnt, msgs, run, sess, job, task, creq, cached, recd, execs, tend, bad, dvars>>
 =============================================================================
